@@ -43,7 +43,7 @@ OBS = {
     "dqueue": {
         "module": "DqueueObs",
         "invariants": ["BufferBound", "HandedInProductionOrder", "HandedToRequester", "TakenOnceInOrder", "ProcessedAsTaken"],
-        "reset": "/\\ zreqs' = <<>> /\\ zhanded' = <<>> /\\ ztaken' = <<>> /\\ zproc' = <<>> /\\ zprod' = 0",
+        "reset": "/\\ zreqs' = <<>> /\\ zhanded' = <<>> /\\ ztaken' = <<>> /\\ zproc' = <<>> /\\ zprod' = 0 /\\ zcons' = 0",
         "labels": ["c1", "c2", "p1", "p2"],
     },
     "loadbalancer": {
